@@ -16,7 +16,8 @@ A `World` holds the process resources the property talks about:
 Every C function that acquires or releases is mirrored statement by statement; pointers are
 `Option Tok` (`none` = NULL); a pointer that was freed but not reset keeps its value (dangling).
 
-Mirrored C (src/): mixer.c `libxmp_mixer_on/off`, virtual.c `libxmp_virt_on/off`,
+Mirrored C (src/): smix.c `xmp_start_smix`, `xmp_smix_load_sample`, `xmp_smix_release_sample`,
+`xmp_end_smix` (section "sound-effect mixer" at the end), mixer.c `libxmp_mixer_on/off`, virtual.c `libxmp_virt_on/off`,
 player.c `xmp_start_player` (unwinding labels taken from the generated table
 `Xmp.Gen.StartCfg`), `xmp_end_player`, load.c `xmp_release_module`, `load_module`,
 `xmp_load_module*`, hio.c `hio_open*`, `hio_reopen_*`, `hio_close`, callbackio.h `cbopen/cbclose`,
@@ -31,6 +32,7 @@ inductive Kind
   | xxt | track | xxp | pattern | xxi | sub | insExtra | xxs | smpData | xtra | midi
   | scanCnt | scanRow | scan | comment | dirname | basename | modExtra | modExtraTab | modExtraEnt
   | hio | cbfile | mfile | depackBuf | tempName | loaderTmp
+  | smixXxi | smixXxs | smixSub | smixData
   deriving DecidableEq, Repr, Inhabited
 
 structure Tok where
@@ -116,6 +118,8 @@ structure StartParams where
   extras : Bool := false    -- module has MED/HMN/FAR extras: one block per virtual channel
   maxvoc : Nat := 0
   virtch : Nat := 0
+  /-- `smix->chn >= 0 && mod->chn + smix->chn <= XMP_MAX_CHANNELS` (checked before anything is touched) -/
+  smixOk : Bool := true
   deriving Repr
 
 /-- libxmp_mixer_on -/
@@ -157,10 +161,12 @@ def virtAlloc (pp : StartParams) (p : Player) (w : World) : Int × Player × Wor
 def virtOn (pp : StartParams) (p : Player) (w : World) : Int × Player × World :=
   virtAlloc pp (virtInit pp p) w
 
-/-- libxmp_virt_off; walking `voice_array[i].paula` through a NULL `voice_array` is invalid -/
+/-- libxmp_virt_off; walking `voice_array[i].paula` through a NULL `voice_array` is invalid.
+`virt_channels = 0` afterwards: the per-channel table `xc_data[i].extra`, `i < virt_channels`, has no
+entries any more (entries still owned at that point are lost: a later release loop does not run) -/
 def virtOff (p : Player) (w : World) : Player × World :=
   let w := if p.voiceArray.isNone ∧ p.paula ≠ [] then { w with bad := w.bad + 1 } else w
-  ({ p with voiceArray := none, paula := [], virtChannel := none, maxvoc := 0, virtChannels := 0 },
+  ({ p with voiceArray := none, paula := [], virtChannel := none, maxvoc := 0, virtChannels := 0, chanExtra := [] },
    ((freeAll p.paula w).free p.voiceArray).free p.virtChannel)
 
 /-! ### the unwinding table of xmp_start_player (from the generated file) -/
@@ -224,9 +230,13 @@ structure Abs where
   xcOk : Bool := true     -- xc_data != NULL or no channel extras to walk
   deriving DecidableEq, Repr
 
-/-- the abstract state in which the failure branch of each site is entered -/
+/-- the abstract state in which the failure branch of each site is entered.  When libxmp_mixer_on
+fails nothing is held, but the context may be the residue of an earlier failed start: `maxvoc` /
+`virt_channels` can be non-zero while `voice_array` / `xc_data` are NULL (libxmp_virt_on sets the
+counts before it allocates; its failure path kept them until fix efb70c5, and the theorems do not rely
+on that reset), so neither table may be walked. -/
 def Site.entry : Site → Abs
-  | .mixerOn => {}
+  | .mixerOn => { vaOk := false, xcOk := false }
   | .virtOn => { mixer := true, vaOk := false, xcOk := false }
   | .flowLoop => { mixer := true, virt := true, xcOk := false }
   | .xcData => { mixer := true, virt := true, flow := true, xcOk := false }
@@ -237,7 +247,7 @@ table, drops blocks that are still owned, or is not understood) -/
 def absStep (a : Action) (s : Abs) : Option Abs :=
   match a with
   | .mixerOff => some { s with mixer := false }
-  | .virtOff => if s.vaOk then some { s with virt := false, vaOk := true } else none
+  | .virtOff => if s.vaOk && !s.extras then some { s with virt := false, vaOk := true, xcOk := true } else none
   | .flowLoop => some { s with flow := false }
   | .xcData => if s.extras then none else some { s with xc := false, xcOk := true }
   | .chanExtras => if s.xcOk then some { s with extras := false } else none
@@ -306,17 +316,10 @@ def startFail (cfg : StartCfg) (site : Site) (code : Int) (c : Ctx) (p : Player)
   let r := doActions (cfg.cleanup site) p w
   (if cfg.retNeg site then code else 0, { c with player := r.1 }, r.2)
 
-/-- xmp_start_player -/
-def startPlayer (cfg : StartCfg) (pp : StartParams) (rateOk : Bool) (c : Ctx) (w : World) :
+/-- xmp_start_player after libxmp_mixer_on has succeeded (`p`, `w`: player and world at that point) -/
+def startTail (cfg : StartCfg) (pp : StartParams) (c : Ctx) (p : Player) (w : World) :
     Int × Ctx × World :=
-  if !rateOk then (errInvalid, c, w) else
-  if c.state = .unloaded then (errState, c, w) else
-  let r := endPlayer c w            -- only acts when playing
-  let c := r.1
-  let w := r.2
-  let r1 := mixerOn c.player w
-  if r1.1 < 0 then startFail cfg .mixerOn errInternal c r1.2.1 r1.2.2 else
-  let r2 := virtOn pp r1.2.1 r1.2.2
+  let r2 := virtOn pp p w
   if r2.1 < 0 then startFail cfg .virtOn errInternal c r2.2.1 r2.2.2 else
   let p := r2.2.1
   match r2.2.2.alloc ⟨.flowLoop, 0⟩ with
@@ -332,6 +335,19 @@ def startPlayer (cfg : StartCfg) (pp : StartParams) (rateOk : Bool) (c : Ctx) (w
       let p := { p with chanExtra := r.1 }
       if r.2.1 then (0, { state := .playing, player := p }, r.2.2)
       else startFail cfg .chanExtras errSystem c p r.2.2
+
+/-- xmp_start_player -/
+def startPlayer (cfg : StartCfg) (pp : StartParams) (rateOk : Bool) (c : Ctx) (w : World) :
+    Int × Ctx × World :=
+  if !rateOk then (errInvalid, c, w) else
+  if c.state = .unloaded then (errState, c, w) else
+  if !pp.smixOk then (errInvalid, c, w) else     -- module + smix channels exceed the channel tables
+  let r := endPlayer c w            -- only acts when playing
+  let c := r.1
+  let w := r.2
+  let r1 := mixerOn c.player w
+  if r1.1 < 0 then startFail cfg .mixerOn errInternal c r1.2.1 r1.2.2 else
+  startTail cfg pp c r1.2.1 r1.2.2
 
 /-! ## the module and xmp_release_module -/
 
@@ -714,5 +730,193 @@ def streamLife (e : Entry) (cb : Callbacks) (sizeOk : Bool) (reopens : List (Boo
   | (some x, w1) =>
     let r := reopenSeq cb reopens x w1
     (true, hioClose cb r.1 r.2)
+
+/-! ## sound-effect mixer tables (smix.c)
+
+`struct smix_data`: two tables of `ins = smp` slots allocated by xmp_start_smix; slot `i` owns
+`xxi[i].sub` (one sub-instrument) and `xxs[i].data - 4` (the sample) once xmp_smix_load_sample
+succeeded for it. -/
+
+structure Smix where
+  xxi : Option Tok := none
+  xxs : Option Tok := none
+  subs : List (Option Tok) := []      -- xxi[i].sub,      i < ins
+  datas : List (Option Tok) := []     -- xxs[i].data - 4, i < smp
+  chn : Nat := 0
+  ins : Nat := 0                      -- smix->ins = smix->smp
+  deriving Repr, DecidableEq
+
+def Smix.toks (s : Smix) : List Tok := ptrs [s.xxi, s.xxs] ++ ptrs s.subs ++ ptrs s.datas
+
+/-- xmp_end_smix: refused (silently) while playing; walking the slots through a NULL table is invalid -/
+def endSmix (st : State) (s : Smix) (w : World) : Smix × World :=
+  if st = .playing then (s, w) else
+  let w := if (s.xxs.isNone ∨ s.xxi.isNone) ∧ s.ins ≠ 0 then { w with bad := w.bad + 1 } else w
+  -- xmp_smix_release_sample(i), i < smp: `libxmp_free_sample(&xxs[i]); free(xxi[i].sub)`
+  let w := freeIns s.datas s.subs w
+  ({}, (w.free s.xxs).free s.xxi)
+
+/-- xmp_start_smix(chn, smp); `argsOk`: `0 <= chn <= XMP_MAX_CHANNELS && 0 <= smp <= 255` -/
+def startSmix (st : State) (argsOk : Bool) (chn smp : Nat) (s : Smix) (w : World) : Int × Smix × World :=
+  if st = .playing then (errState, s, w) else
+  if !argsOk then (errInvalid, s, w) else
+  -- already started: release the previous tables first
+  let r := if s.xxi.isSome ∨ s.xxs.isSome then endSmix st s w else (s, w)
+  let s := r.1
+  match r.2.alloc ⟨.smixXxi, 0⟩ with
+  | (none, w) => (errInternal, { s with xxi := none }, w)
+  | (some a, w) =>
+    match w.alloc ⟨.smixXxs, 0⟩ with
+    | (none, w) => (errInternal, { s with xxi := none, xxs := none }, w.free (some a))      -- err1
+    | (some b, w) =>
+      (0, { xxi := some a, xxs := some b, subs := List.replicate smp none, datas := List.replicate smp none,
+            chn := chn, ins := smp }, w)
+
+/-- what the WAV file turns out to be -/
+inductive Wav
+  | headerBad     -- not RIFF / not mono / rate, bits or size 0 / a header seek fails
+  | dataShort     -- the data seek or read fails after the sample buffer was allocated
+  | ok
+  deriving DecidableEq, Repr, Inhabited
+
+/-- xmp_smix_load_sample(num, path).  The sub-instrument and the sample are built aside and the slot is
+written only when everything was read (`commit`); `releaseOld`: the commit first releases what the slot
+held (xmp_smix_release_sample), otherwise the old pointers are overwritten.  `fopenOk`/`sizeOk`: hio_open. -/
+def smixLoadSample (num : Nat) (fopenOk sizeOk : Bool) (wav : Wav) (releaseOld : Bool) (s : Smix) (w : World) :
+    Int × Smix × World :=
+  if num ≥ s.ins then (errInvalid, s, w) else
+  match hioOpenPath fopenOk sizeOk w with
+  | (none, w) => (errSystem, s, w)
+  | (some h, w) =>
+    match w.alloc ⟨.smixSub, w.nalloc⟩ with
+    | (none, w) => (errSystem, s, hioClose {} h w)                                   -- err1
+    | (some sub, w) =>
+      if wav = .headerBad then (errFormat, s, hioClose {} h (w.free (some sub))) else  -- err2 (data == NULL)
+      match w.alloc ⟨.smixData, w.nalloc⟩ with
+      | (none, w) => (errSystem, s, hioClose {} h (w.free (some sub)))               -- err2
+      | (some d, w) =>
+        if wav = .dataShort then (errSystem, s, hioClose {} h ((w.free (some d)).free (some sub))) else
+        let w := hioClose {} h w
+        -- commit
+        let w := if releaseOld then (w.free (s.datas.getD num none)).free (s.subs.getD num none) else w
+        (0, { s with subs := s.subs.set num (some sub), datas := s.datas.set num (some d) }, w)
+
+/-- invariant of `struct smix_data`: the slot tables exist whenever there are slots -/
+def Smix.wf (s : Smix) : Bool :=
+  s.subs.length == s.ins && s.datas.length == s.ins && ((s.xxi.isSome && s.xxs.isSome) || s.ins == 0)
+
+/-! ## closing can report an error (fclose / the close callback return < 0)
+
+The stream is released whatever the close function reports (fclose frees the FILE, cbclose its
+CBFILE).  `hio_reopen_*` look at the result: `switchAnyway = false` is the code that returns the error
+and leaves the handle referring to the old stream; `true` the code that switches to the new stream in
+any case (the flag of the current tree is generated: `Gen.StartCfg.reopenIgnoresCloseResult`). -/
+
+/-- hio_close_internal with its return value; `fails`: the close function reports an error -/
+def hioCloseInternalR (fails : Bool) (cb : Callbacks) (x : Hio) (w : World) : Int × World :=
+  let w' := hioCloseInternal cb x w
+  match x.type with
+  | .mem => (0, w')                                                   -- mclose returns 0
+  | .file => (if !x.noclose && fails then -1 else 0, w')
+  | .cb => (if cb.hasClose && fails then -1 else 0, w')
+
+def hioReopenMemR (switchAnyway fails : Bool) (cb : Callbacks) (buf : Tok) (x : Hio) (w : World) : Int × Hio × World :=
+  match w.alloc ⟨.mfile, 1⟩ with
+  | (none, w1) => (-1, x, w1)
+  | (some m, w1) =>
+    let r := hioCloseInternalR fails cb x w1
+    if r.1 < 0 && !switchAnyway then
+      -- `m->ptr_free = NULL; mclose(m); return ret;` - the handle still refers to the closed stream
+      (-1, x, r.2.free (some m))
+    else (0, { x with type := .mem, inner := some m, buf := some buf }, r.2)
+
+def hioReopenFileR (switchAnyway fails : Bool) (cb : Callbacks) (sizeOk : Bool) (x : Hio) (w : World) : Int × Hio × World :=
+  if !sizeOk then (-1, x, w) else
+  let r := hioCloseInternalR fails cb x w
+  if r.1 < 0 && !switchAnyway then (-1, x, r.2)
+  else (0, { x with type := .file, noclose := false, stream := .tempFile, inner := none, buf := none }, r.2)
+
+/-- `reopenSeq` where every step also says whether closing the old stream reports an error -/
+def reopenSeqR (sw : Bool) (cb : Callbacks) : List (Bool × Bool × Bool) → Hio → World → Hio × World
+  | [], x, w => (x, w)
+  | (toMem, ok, fails) :: rest, x, w =>
+    if toMem then
+      match w.alloc ⟨.depackBuf, rest.length⟩ with
+      | (none, w1) => (x, w1)
+      | (some b, w1) =>
+        if !ok then (x, w1.free (some b)) else
+        let r := hioReopenMemR sw fails cb b x w1
+        if r.1 < 0 then (r.2.1, r.2.2.free (some b))
+        else reopenSeqR sw cb rest r.2.1 r.2.2
+    else
+      let w1 := { w with openFds := w.openFds + 1 }
+      let r := hioReopenFileR sw fails cb ok x w1
+      if r.1 < 0 then (r.2.1, r.2.2.fcloseOwned .tempFile)
+      else reopenSeqR sw cb rest r.2.1 r.2.2
+
+def streamLifeR (sw : Bool) (e : Entry) (cb : Callbacks) (sizeOk : Bool) (reopens : List (Bool × Bool × Bool)) (w : World) :
+    Bool × World :=
+  match openEntry e cb sizeOk w with
+  | (none, w1) => (false, w1)
+  | (some x, w1) =>
+    let r := reopenSeqR sw cb reopens x w1
+    (true, hioClose cb r.1 r.2)      -- the result of the final close is ignored by every caller
+
+/-! ## rescans: libxmp_scan_sequences on a loaded / playing context (scan.c)
+
+Called again by xmp_set_player(XMP_PLAYER_MODE / XMP_PLAYER_CFLAGS) and xmp_scan_module.  It
+`realloc`s `p->scan` to `mod->len` entries, scans, and `realloc`s it down to the number of sequences;
+compare_vblank_scan mallocs a backup of `xxo_info` and skips the comparison when that fails. -/
+
+/-- `realloc(old, n)` of a live block: failure leaves the old block valid; success hands out the block
+`t` (possibly moved) in place of `old` -/
+def World.realloc (w : World) (old : Option Tok) (t : Tok) : Option Tok × World :=
+  let w' := { w with oracle := w.oracle.tail, nalloc := w.nalloc + 1 }
+  if w.oracle.headD true then
+    (some t, { w' with live := t :: (match old with | some o => w.live.erase o | none => w.live) })
+  else (none, w')
+
+/-- compare_vblank_scan: mallocs a backup of `xxo_info`, frees it; without it the comparison is skipped -/
+def compareVblank (on : Bool) (w : World) : World :=
+  if on then
+    match w.alloc ⟨.loaderTmp, 0⟩ with
+    | (none, w1) => w1
+    | (some b, w1) => w1.free (some b)
+  else w
+
+/-- libxmp_scan_sequences; `vblankCmp`: compare_vblank_scan runs, `valid`: the scan finds a valid order,
+`shrink`: fewer sequences than orders.  Returns the code, `p->scan`, the world. -/
+def scanSequences (vblankCmp valid shrink : Bool) (scan : Option Tok) (w : World) : Int × Option Tok × World :=
+  match w.realloc scan ⟨.scan, w.nalloc + 1⟩ with
+  | (none, w1) => (-1, scan, w1)
+  | (some s, w1) =>
+    let w2 := compareVblank vblankCmp w1
+    if !valid then (-1, some s, w2) else
+    if shrink then
+      match w2.realloc (some s) ⟨.scan, w2.nalloc + 1⟩ with
+      | (none, w3) => (0, some s, w3)              -- `if (s != NULL) p->scan = s;`
+      | (some s', w3) => (0, some s', w3)
+    else (0, some s, w2)
+
+/-- what one run of libxmp_scan_sequences does under a given player mode -/
+structure ScanP where
+  vblankCmp : Bool := false
+  valid : Bool := true
+  shrink : Bool := false
+  deriving Repr, DecidableEq
+
+/-- xmp_set_player(XMP_PLAYER_MODE, val), `val` in range, on a PLAYING context (control.c): the new mode
+and the six mode members are stored and the module is rescanned under them (`new`); when that rescan fails
+(nothing playable under the new mode, or the growing realloc failed) the old mode and members are put back,
+the module is rescanned a second time under them (`old`) and the call is refused with -XMP_ERROR_INVALID.
+Returns: code, `p->mode`, whether the scan table belongs to the mode in force (the last rescan
+succeeded), `p->scan`, world. -/
+def setPlayerMode (new old : ScanP) (oldMode newMode : Nat) (scan : Option Tok) (w : World) :
+    Int × Nat × Bool × Option Tok × World :=
+  let r := scanSequences new.vblankCmp new.valid new.shrink scan w
+  if r.1 < 0 then
+    let r2 := scanSequences old.vblankCmp old.valid old.shrink r.2.1 r.2.2
+    (errInvalid, oldMode, !(r2.1 < 0), r2.2.1, r2.2.2)
+  else (0, newMode, true, r.2.1, r.2.2)
 
 end Xmp.Resource
